@@ -179,6 +179,30 @@ def has_blank_obs_line(f):
     return False
 
 
+def decimal_rate(sampling):
+    """class K of the finding c11_decimation_float_mod: the rate is not exactly representable (denominator not a power of two)"""
+    if not sampling:
+        return False
+    d = Fraction(*sampling).denominator
+    return d & (d - 1) != 0
+
+
+def only_grid_epochs_dropped(ctx, f, obs):
+    """Is midgard's result exactly the specification model's result for the file WITHOUT some of the epochs that lie on
+    the sampling grid?  (Evaluated in Coq: the file restricted to the epochs midgard kept, same sampling rate.)"""
+    obs_t, times = obs
+    if obs_t is None or not times:
+        return False
+    def tstr(e):
+        Y, M, D, h, m, s7 = e["t"]
+        return f"{Y}-{M:02d}-{D:02d}T{h:02d}:{m:02d}:{s7 // 10 ** 7:02d}.{s7 % 10 ** 7:07d}"
+    g = dict(f, epochs=[e for e in f["epochs"] if tstr(e) in times])
+    if len(g["epochs"]) == len(f["epochs"]) or not g["epochs"]:
+        return False
+    vs = ctx.coq_cases(emit.shard_terms("check_file", [case_term(f["version"], f["sampling"], gen.render(g), obs_t)], 1), REQ, timeout=600)
+    return vs == [[0]]
+
+
 def corpus():
     """Hand-written files first (classes that failed earlier)."""
     def cell(v):
@@ -193,7 +217,20 @@ def corpus():
               epochs=[dict(t=[2018, 2, 1, 0, 0, 0], clk=None, sats=sats, comment_after=[])])
     f2 = json.loads(json.dumps(f1))
     f2["style"]["strip"] = False                      # the blank continuation line consists of 32 blanks
-    return [("blank_continuation_stripped", f1), ("blank_continuation_unstripped", f2)]
+    out = [("blank_continuation_stripped", f1), ("blank_continuation_unstripped", f2)]
+    for version in (2, 3):                             # 10 Hz data decimated to 5 Hz
+        f = json.loads(json.dumps(f1))
+        f["version"] = version
+        if version == 3:
+            f["hdr"]["version_text"] = "3.03"
+            f["systypes"] = [["G", ["C1C", "L1C"]]]
+        else:
+            f["systypes"] = [["", ["C1", "L1"]]]
+        f["epochs"] = [dict(t=[2018, 2, 1, 0, 0, k * 10 ** 6], clk=None, comment_after=[],
+                            sats=[dict(sys="G", prn=1, pad="0", cells=[cell(20000000000 + k), cell(100000000 + k)])]) for k in range(11)]
+        f["sampling"] = [1, 5]
+        out.append((f"ten_hz_to_five_hz_v{version}", f))
+    return out
 
 
 # ----------------------------------------------------------------------------------------- the run
@@ -217,7 +254,7 @@ def run(ctx):
             f["sampling"] = None                       # contract: at least one epoch survives the decimation
         files.append((f"rand{i}", f))
 
-    cases, metas = [], []
+    cases, metas, models, obs_terms = [], [], {}, {}
     os.makedirs(ctx.work, exist_ok=True)
     for name, f in files:
         lines = gen.render(f)
@@ -226,6 +263,7 @@ def run(ctx):
             fh.write("".join(l + "\n" for l in lines))
         p, err = parse_with_midgard(f["version"], path, f["sampling"])
         nrows = sum(len(e["sats"]) for e in f["epochs"] if epoch_on_grid(e, f["sampling"]))
+        models[name] = f
         rep = dict(kind="file", name=name, version=f["version"], sampling=f["sampling"], lines=lines,
                    expected_rows=nrows, blank_observation_line=has_blank_obs_line(f),
                    how=f"parsers.parse_file('rinex{f['version']}_obs', <file with these lines>" +
@@ -242,6 +280,7 @@ def run(ctx):
                 rep["observed"] = f"unreadable result: {type(e).__name__}: {e}"
                 ctx.violation(rep, what="result of the parser has a shape outside the property's observables")
                 continue
+        obs_terms[name] = (obs_t, None if p is None else set(p.data.get("time", [])))
         cases.append(case_term(f["version"], f["sampling"], lines, obs_t))
         metas.append(rep)
         ntypes = max(len(t) for _, t in f["systypes"])
@@ -273,6 +312,11 @@ def run(ctx):
                             "five observation types the values of the following satellites shift and the epoch loses rows", rep)
             elif v == 3:
                 ctx.violation(rep, what="per-record columns returned by the parser have different lengths")
+            elif v == 1 and decimal_rate(rep["sampling"]) and only_grid_epochs_dropped(ctx, models[rep["name"]], obs_terms[rep["name"]]):
+                ctx.count("quirk:decimation_float_mod")
+                ctx.finding("c11_decimation_float_mod",
+                            "sampling-rate decimation uses binary floating point '%': with a rate that is not a dyadic fraction "
+                            "(0.1 s, 0.2 s) epochs on the grid are dropped", rep)
             else:
                 ctx.violation(rep, what="midgard's result differs from the model of the file's contents")
     if not ok and not ctx.violations:
@@ -296,7 +340,8 @@ def run(ctx):
         "Lib/Text.v, Lib/Decimal.v, Lib/Fixed.v, Lib/Dyadic.v (shared libraries, no axioms)",
     ]
     ctx.assume += ["TIME OF FIRST OBS names the GPS time system; epoch flags are 0 (anything else makes midgard exit via log.fatal)",
-                   "seconds have at most 7 decimals; sampling rates are integers or dyadic fractions (so float '%' is exact)",
+                   "seconds have at most 7 decimals; hour*3600+minute*60+second is computed exactly (true for doubles of this size up to 1 ulp, "
+                   "which never reaches a grid point); random files use integer or dyadic sampling rates, decimal rates are the class of finding c11_decimation_float_mod",
                    "at least one epoch survives the decimation (otherwise the post-processors raise KeyError 'text')",
                    "blank satellite-system identifiers only in epochs without continuation line"]
     return ctx.finish(
